@@ -48,7 +48,9 @@ def race_reports(logdir):
         txt = open(os.path.join(logdir, f), errors="ignore").read()
         for blk in txt.split("WARNING: DATA RACE")[1:]:
             if "github.com/free5gc/nas" in blk: lib.append(blk[:1500])
-            else: other += 1
+            else:
+                other += 1
+                if other == 1: log("race report without a library frame:\n" + blk[:2500])
     return lib, other
 
 
